@@ -17,7 +17,10 @@ import (
 	"sort"
 	"strings"
 
+	"crypto/sha256"
 	"golang.org/x/tools/go/ssa"
+	"io"
+	"sync"
 )
 
 // ---------- terms ----------
@@ -310,7 +313,34 @@ func domainFacts(terms []*pt) []Fact {
 
 // proveFacts: do the path facts imply goal (a OP b)? Integer reasoning: strict inequalities are +-1, disequalities combine
 // with a one-sided bound.
+// proveP answers are memoised per (set of facts, goal): the interpreter asks the same question many times while it
+// normalises nested terms, and every answer costs several exact LP runs.
+var provePMemo sync.Map
+
 func proveP(facts []pFact, a *pt, op token.Token, b *pt) bool {
+	if rangeProves(a, op, b) {
+		return true
+	}
+	h := sha256.New()
+	for _, f := range facts {
+		if f.a == nil {
+			continue
+		}
+		io.WriteString(h, f.String())
+		h.Write([]byte{0})
+	}
+	io.WriteString(h, "|"+a.String()+" "+op.String()+" "+b.String())
+	var key [32]byte
+	copy(key[:], h.Sum(nil))
+	if v, ok := provePMemo.Load(key); ok {
+		return v.(bool)
+	}
+	r := provePUncached(facts, a, op, b)
+	provePMemo.Store(key, r)
+	return r
+}
+
+func provePUncached(facts []pFact, a *pt, op token.Token, b *pt) bool {
 	pl := &protoLin{}
 	var lf []Fact
 	terms := []*pt{a, b}
